@@ -369,7 +369,7 @@ impl World {
             self.success_history.hash(h); self.broker_has_session.hash(h); self.assigned_client_id.hash(h);
             self.id_holders.hash(h); self.inbound_q2_open.hash(h); self.interrupted.hash(h);
             self.disconnect_submitted.hash(h);
-            self.pending_resolves.hash(h); self.phantom_aliases.hash(h); self.resolver_history.hash(h);
+            self.pending_resolves.hash(h); self.phantom_aliases.hash(h); self.unexplained_aliases.hash(h); self.resolver_history.hash(h);
             self.idle_service_streak.min(2).hash(h);
             self.violations.iter().map(|v| (&v.property, &v.signature)).collect::<Vec<_>>().hash(h);
             for op in &self.ops {
